@@ -60,6 +60,13 @@ func forEachInput(e Entry, thorough bool, rng *rand.Rand, fn func(class string, 
 		}
 		return
 	}
+	if e.Framed {
+		framedMutations(e.Seeds, func(class string, pos int, in []byte) {
+			if in != nil {
+				fn(class, pos, in)
+			}
+		})
+	}
 	dense := 160
 	havoc := 400
 	if thorough {
